@@ -18,6 +18,8 @@ Conforms(in, obs) ==
   \* every path reaches the command exactly once, as one unmodified argument, in order
   /\ obs.args = Paths(r)
   /\ (r = <<>> => obs.nexec <= 1)
+  \* ... also when each is substituted into a command of its own (xargs -0 -I{} CMD {})
+  /\ ("iargs" \in DOMAIN obs => obs.iargs = Paths(r))
 
 Describe(in) == [paths |-> Paths(Reached(in.tree, CfgOf(in), in.roots, in.pre))]
 Beyond(in) == FALSE
